@@ -135,16 +135,21 @@ func main() {
 		if *tier == "thorough" {
 			n = 5
 		}
+		thorough := *tier == "thorough"
 		var rec func(cur []*seg)
 		count := 0
 		rec = func(cur []*seg) {
 			if len(cur) >= 2 {
 				// sample: the full product is too large; take every k-th
 				count++
-				if *tier == "thorough" || count%7 == 0 {
+				take := count%7 == 0
+				if thorough {
+					take = len(cur) <= 4 || count%11 == 0
+				}
+				if take {
 					planCall(o, cur, "plan")
 				}
-				if *tier == "thorough" || count%5 == 0 {
+				if (thorough && (len(cur) <= 3 || count%13 == 0)) || (!thorough && count%5 == 0) {
 					converge(o, cur)
 				}
 			}
